@@ -51,6 +51,11 @@ def run(ctx) -> None:
     from ..models import make_interp as _mk
     from ..streamshapes import end_to_end
     end_to_end(ctx, _mk(ctx.p), "C07", "C07.Z.found-where-the-property-says", "C07.Z.not-found-elsewhere")
+    # W: the canonical witness listing of every skeleton is found, first character to last (stream templates)
+    from ..models import make_interp as _mkw
+    from ..streamshapes import witnesses
+    if ctx.tier == "thorough" or ():
+        witnesses(ctx, _mkw(ctx.p), "C07.W.canonical-witness-is-found", tags=() if ctx.tier != "thorough" or "C07" != "C07" else ())
     # P3 shipped macro file
     f = ctx.p.root / "tests" / "macros" / "jasm_macros.yaml"
     if not f.exists():
